@@ -55,6 +55,8 @@ def run(ctx):
     rb = ctx.rule('R36.b', 'insert / find / find_or_larger orientation agreement', floor=5)
     rc = ctx.rule('R36.c', 'update_node: in place only strictly between neighbours', floor=5)
     rd = ctx.rule('R36.d', 'new nodes RED with nil children; root blackened', floor=3)
+    re_ = ctx.rule('R36.e', 'remove: x->parent assigned on every path to delete_fixup; colour of the spliced node gates the fix-up', floor=5)
+    check_remove(ctx, u, re_)
 
     fl = u.func('parsec_rbtree_left_rotate'); fr = u.func('parsec_rbtree_right_rotate')
     ctx.functions_analysed.update([fl.name, fr.name])
@@ -209,3 +211,61 @@ def _single(f, nid):
             return None
         return ch[0]
     return nid
+
+
+# ---------------------------------------------------------------------------------------
+# R36.e  parsec_rbtree_remove: the node handed to delete_fixup may be the shared nil sentinel,
+#        whose parent field is whatever the previous removal left there; delete_fixup starts
+#        from x->parent.  On every path to the fix-up call, x->parent is assigned after x got
+#        its value: by a direct store, or by transplant(tree, u, <same node as x>) - and
+#        transplant assigns v->parent on all of its paths.
+# ---------------------------------------------------------------------------------------
+def check_remove(ctx, u, re_):
+    tr = u.func('parsec_rbtree_transplant')
+    f = u.func('parsec_rbtree_remove')
+    if tr is None or f is None:
+        raise AnalysisBroken('parsec_rbtree_remove / parsec_rbtree_transplant not found')
+    ctx.functions_analysed.update([tr.name, f.name])
+    v = tr.params[2]['n']; un = tr.params[1]['n']
+    sets = [s_ for s_ in tr.stores() if s_.lhs.s == '%s->parent' % v and s_.rhs.s == '%s->parent' % un]
+    tr_ok = re_.expect(len(sets) == 1 and tr.postdominates(sets[0].point, (tr.entry, 0)), 'transplant:sets-parent', sets[0].loc if sets else tr.where(),
+                       'transplant(tree, u, v) must set v->parent = u->parent on every path (v may be the nil sentinel)', note='transplant always links v to the parent of u')
+    fix = f.calls('parsec_rbtree_delete_fixup')
+    if not re_.expect(len(fix) == 1, 'remove:fixup-call', f.where(), 'remove must call delete_fixup at exactly one site (found %d)' % len(fix), note='one delete_fixup site'):
+        return
+    xarg = fix[0].args[1].s
+    npaths = 0; bad = []
+    for path in f.paths():
+        evs = f.path_events(path)
+        if not any(e is fix[0] or (e.kind == 'call' and e.nid == fix[0].nid) for e in evs):
+            continue
+        npaths += 1
+        xdef = None; linked = False
+        for e in evs:
+            if e.kind == 'store' and e.lhs.s == xarg and e.op == '=':
+                xdef = e.rhs.s if e.rhs is not None else None; linked = False
+            elif e.kind == 'store' and e.lhs.s == '%s->parent' % xarg:
+                linked = True
+            elif e.kind == 'store' and xdef is not None and e.lhs.s == xdef:
+                xdef = None          # the expression x was read from now names another node
+            elif e.kind == 'call' and e.fn == 'parsec_rbtree_transplant' and tr_ok and len(e.args) == 3 and e.args[2].s in (xarg, xdef):
+                linked = True
+            elif e.kind == 'call' and e.nid == fix[0].nid:
+                if not linked:
+                    bad.append(path)
+                break
+    from sa.facts import render_path
+    re_.expect(npaths >= 3, 'remove:paths', f.where(), 'expected at least 3 paths of remove reaching delete_fixup (found %d)' % npaths, note='%d paths to the fix-up' % npaths)
+    re_.expect(not bad, 'remove:fixup-parent-unset', fix[0].loc,
+               'delete_fixup(%s) is reached on a path where %s->parent was not assigned after %s got its value: when %s is the nil sentinel the fix-up climbs from a stale parent (%d of %d paths%s)'
+               % (xarg, xarg, xarg, xarg, len(bad), npaths, (', e.g. ' + str(render_path(f, bad[0]))) if bad else ''),
+               note='on all %d paths x->parent is (re)assigned before the fix-up' % npaths)
+    # y_original_color gates the fix-up and is re-read when y changes
+    col = [s_ for s_ in f.stores() if s_.lhs.k == 'ref' and s_.rhs is not None and s_.rhs.s.endswith('->color')]
+    ys = [s_ for s_ in f.stores() if s_.lhs.s == 'y' and s_.rhs is not None and s_.rhs.k == 'call']
+    if ys and col:
+        cv = col[0].lhs.s
+        re_.expect(any(c.lhs.s == cv and f.precedes(ys[0], c) for c in col), 'remove:color-of-successor', ys[0].loc,
+                   'when y becomes the successor of z its colour must be re-read into %s' % cv, note='colour of the spliced node decides the fix-up')
+        re_.expect(any(a.s == '%s == PARSEC_RBTREE_BLACK' % cv and t is True for a, t, _ in f.guards(fix[0].point)), 'remove:fixup-guard', fix[0].loc,
+                   'delete_fixup must run exactly when the spliced node was BLACK', note='fix-up only when a black node was removed')
